@@ -27,6 +27,12 @@ FINDINGS = [
     ('C17', 'beamer-state.json', 'C17|state|class-setting|plasTeX.Base.LaTeX.Lists:itemize.args',
      {'property': 'C17', 'seed': 3, 'swarm': {'scrub': False, 'base': 'minimal', 'exec_ref': False, 'hashseed': 1},
       'ops': [job(['textbf'], cls='beamer')]}),
+    ('C04', 'global-prefix-def.json', 'C04|tex|global-prefix|def',
+     {'property': 'C04', 'seed': 4, 'swarm': {'transports': ['tex'], 'global_prefix': True},
+      'ops': [{'op': 'OPEN', 'kind': 'brace'}, {'op': 'DEF_GLOBAL', 'name': 'na', 'id': 7}, {'op': 'CLOSE'}, {'op': 'PROBE', 'what': 'na'}]}),
+    ('C04', 'global-prefix-let.json', 'C04|tex|global-prefix|let',
+     {'property': 'C04', 'seed': 5, 'swarm': {'transports': ['tex'], 'global_prefix': True},
+      'ops': [{'op': 'OPEN', 'kind': 'brace'}, {'op': 'LET', 'dst': 'na', 'src': 'nb', 'global': True}, {'op': 'CLOSE'}, {'op': 'PROBE', 'what': 'na'}]}),
 ]
 
 
